@@ -210,7 +210,7 @@ theorem c19_signed_roundtrip (bits : Nat) (hb : bits = 16 ∨ bits = 32) (n : Na
       simp only [Nat.reducePow, Nat.reduceSub] at h ⊢
       split <;> omega
 
-theorem c19_signed_roundtrip' (bits : Nat) (hb : bits = 16 ∨ bits = 32) (i : Int)
+theorem c19_signed_roundtrip_inv (bits : Nat) (hb : bits = 16 ∨ bits = 32) (i : Int)
     (h1 : -(2 ^ (bits - 1) : Int) ≤ i) (h2 : i < 2 ^ (bits - 1)) :
     toSigned bits (ofSigned bits i) = i := by
   rcases hb with rfl | rfl <;>
